@@ -81,6 +81,30 @@ inline std::string wellformed_geometric(const WfInput& in, const Paths& sol, boo
   return "";
 }
 
+// does the solution touch itself: two edges that are not neighbours in one path share a point (a vertex used twice,
+// a vertex on another edge, or a shared boundary segment)? Proper crossings are reported by their own clause.
+inline bool solution_touches_itself(const Paths& sol) {
+  std::vector<Edge> E = edges_of(sol);
+  for (size_t i = 0; i < E.size(); ++i)
+    for (size_t j = i + 1; j < E.size(); ++j) {
+      bool same = E[i].path == E[j].path;
+      size_t n = sol[E[i].path].size();
+      bool adjacent = same && ((size_t)(E[i].idx + 1) % n == (size_t)E[j].idx || (size_t)(E[j].idx + 1) % n == (size_t)E[i].idx);
+      if (adjacent) {
+        // neighbours may only share their common vertex; folding back on each other counts as touching
+        const P& a = E[i].a; const P& b = E[i].b; const P& c = E[j].a; const P& d = E[j].b;
+        const P& shared = ((size_t)(E[i].idx + 1) % n == (size_t)E[j].idx) ? b : a;
+        const P& o1 = (shared == b) ? a : b; const P& o2 = (c == shared) ? d : c;
+        if (n > 2 && orient(o1, shared, o2) == 0 && dot128(shared, o1, o2) > 0) return true;
+        continue;
+      }
+      if (segs_intersect(E[i].a, E[i].b, E[j].a, E[j].b)) return true;
+    }
+  return false;
+}
+// tag for a failed "Union(solution) == solution" clause
+inline std::string union_tag(const Paths& sol) { return solution_touches_itself(sol) ? "union_not_idempotent_touching_solution" : "union_not_idempotent"; }
+
 inline std::string wellformed_general(const WfInput& in, const Paths& sol, bool pc, bool rs, ld vertex_tol) {
   std::string s = wellformed_structural(in, sol);
   if (!s.empty()) return s;
